@@ -97,8 +97,32 @@ def nativize(owner, *names):
             setattr(owner, name, nativize_fn(raw))
 
 
+HISTORY = []          # concrete native harness invocations of this process, in order (for history replay)
+HISTORY_OK = [True]
+
+
+def _jsonable(x, depth=0):
+    if depth > 8:
+        return False
+    if x is None or isinstance(x, (str, int, float, bool)):
+        return True
+    if isinstance(x, (list, tuple)):
+        return all(_jsonable(v, depth + 1) for v in x)
+    if isinstance(x, dict):
+        return all(isinstance(k, str) and _jsonable(v, depth + 1) for k, v in x.items())
+    return False
+
+
 def run_native(fn, *a, **kw):
-    """Call fn natively if tracing is on and everything is concrete; else plain call."""
+    """Call fn natively if tracing is on and everything is concrete; else plain call.  The call is
+    logged so that a counterexample that depends on earlier calls in the same process (state leaking
+    between calls) can be replayed together with its history."""
+    if NoTracing is not None and is_tracing():
+        with NoTracing():
+            if not kw and _jsonable(a) and len(HISTORY) < 200000:
+                HISTORY.append([getattr(fn, '__module__', ''), getattr(fn, '__name__', ''), list(a)])
+            else:
+                HISTORY_OK[0] = False
     return nativize_fn(fn)(*a, **kw)
 
 
